@@ -39,6 +39,9 @@ pub enum Verdict {
     Deadlock,
     /// the thread calling `Txtpp::run` panicked
     MainPanic(String),
+    /// after an error the workers are blocked inside the channel send while `Drop` joins the pool
+    /// (bounded-progress predicate of sched.rs held for 10 s): `Txtpp::run` can never return
+    HangInDrop,
     /// harness watchdog fired: inconclusive, never a violation
     Watchdog,
 }
@@ -55,6 +58,7 @@ impl Verdict {
             Verdict::Ok => "ok".into(),
             Verdict::Err(m) => format!("err({})", m.lines().map(|l| l.trim()).filter(|l| !l.is_empty()).take(4).collect::<Vec<_>>().join(" | ")),
             Verdict::Deadlock => "DEADLOCK".into(),
+            Verdict::HangInDrop => "HANG-IN-DROP".into(),
             Verdict::MainPanic(m) => format!("PANIC({m})"),
             Verdict::Watchdog => "watchdog".into(),
         }
@@ -197,6 +201,9 @@ pub fn run_inproc(cfg: &RunCfg, spec: Spec, cwd: Option<&Path>, log_events: bool
             Err(mpsc::RecvTimeoutError::Timeout) => {
                 if let Ok(Signal::Deadlock) = sig_rx.try_recv() {
                     break Verdict::Deadlock; // coordinator thread stays parked (leaked)
+                }
+                if ctl.stuck_in_send(Duration::from_secs(10)) {
+                    break Verdict::HangInDrop; // coordinator thread stays blocked (leaked)
                 }
                 if Instant::now() > deadline {
                     break Verdict::Watchdog;
